@@ -30,6 +30,7 @@ type c14Case struct {
 	Iter   int    `json:"iter,omitempty"`
 	SNonce string `json:"snonce,omitempty"`
 	Chal   string `json:"chal,omitempty"`
+	Ext    string `json:"ext,omitempty"`    // SCRAM: optional extension attributes appended to the server-first-message
 	TLSVer int    `json:"tlsver,omitempty"` // 0 none, 12, 13
 	Twice  bool   `json:"twice,omitempty"`  // two exchanges with one Auth object (nonce freshness)
 	Redial bool   `json:"redial,omitempty"` // through mail.Client: dial, close, dial again on the SAME Client (two connections)
@@ -120,7 +121,7 @@ func c14Server(k c14Case, conn *refsmtp.Conn, trace *sasl.Trace) func(s *refsmtp
 		if sn == "" {
 			sn = "srvnonce"
 		}
-		sc := &sasl.Scram{User: k.SUser, Pass: k.SPass, SHA256: strings.Contains(m, "256"), Plus: strings.HasSuffix(m, "-PLUS"), Salt: salt, Iter: iter, SNonce: sn, T: trace}
+		sc := &sasl.Scram{User: k.SUser, Pass: k.SPass, SHA256: strings.Contains(m, "256"), Plus: strings.HasSuffix(m, "-PLUS"), Salt: salt, Iter: iter, SNonce: sn, FirstExt: k.Ext, T: trace}
 		if sc.Plus && conn.ServerTLS != nil {
 			st := conn.ServerTLS
 			if st.Version >= tls.VersionTLS13 {
@@ -363,7 +364,7 @@ func init() {
 	vf.Register(&vf.Check{
 		ID: "C14", Title: "SASL mechanisms interoperate with conforming servers",
 		Run: func(r *vf.Run) {
-			r.SetRule("user names and passwords/tokens: ALL strings of length 0..2 (thorough 0..3 for users) over {a B = , SP é 日 \\x01 %} plus a 300-byte value, as (user, password) pairs with the right and with two kinds of wrong server-side credentials, for PLAIN, LOGIN, CRAM-MD5 (× challenge strings), XOAUTH2, SCRAM-SHA-1, SCRAM-SHA-256; SCRAM parameter sweeps (pseudo-random salts of length 1..20 and 64, all salts of length 1..3 over {00 01 '=' ff} and 16-byte salts framed by / made of those bytes, iteration counts {1,2,3,4,4095,4096,4097,10000,20000} (thorough: every i<=512 and every 97th up to 20000), server nonce suffixes incl. '=' and 24 printable chars); SCRAM-SHA-1/256-PLUS over real TLS 1.2 (tls-unique) and TLS 1.3 (tls-exporter) handshakes; two exchanges on one Auth object (nonce freshness); for every mechanism, a first exchange that the server ends at its 1st..4th AUTH step with {454, 535, disconnect} followed by a conforming exchange with the same Auth object; histories of 2 (thorough 3) exchanges with one Auth object, every combination of per-exchange server parameters over {2 salts} × {i=16,17,1,4096} × {server expects the right / another password}; all mechanisms through mail.Client over real TLS 1.2/1.3 with a re-dial on the same Client (two connections, fresh channel binding each); the verdict of reference verifiers written from the RFCs (self-tested on RFC 5802/7677/2195/4616/6070 vectors) must be 'accepted' exactly when credentials are equal; distinct by case tuple")
+			r.SetRule("user names and passwords/tokens: ALL strings of length 0..2 (thorough 0..3 for users) over {a B = , SP é 日 \\x01 %} plus a 300-byte value, as (user, password) pairs with the right and with two kinds of wrong server-side credentials, for PLAIN, LOGIN, CRAM-MD5 (× challenge strings), XOAUTH2, SCRAM-SHA-1, SCRAM-SHA-256; SCRAM parameter sweeps (pseudo-random salts of length 1..20 and 64, all salts of length 1..3 over {00 01 '=' ff} and 16-byte salts framed by / made of those bytes, iteration counts {1,2,3,4,4095,4096,4097,10000,20000} (thorough: every i<=512 and every 97th up to 20000), server nonce suffixes incl. '=' and 24 printable chars, optional extension attributes after the iteration count); SCRAM-SHA-1/256-PLUS over real TLS 1.2 (tls-unique) and TLS 1.3 (tls-exporter) handshakes; two exchanges on one Auth object (nonce freshness); for every mechanism, a first exchange that the server ends at its 1st..4th AUTH step with {454, 535, disconnect} followed by a conforming exchange with the same Auth object; histories of 2 (thorough 3) exchanges with one Auth object, every combination of per-exchange server parameters over {2 salts} × {i=16,17,1,4096} × {server expects the right / another password}; all mechanisms through mail.Client over real TLS 1.2/1.3 with a re-dial on the same Client (two connections, fresh channel binding each); the verdict of reference verifiers written from the RFCs (self-tested on RFC 5802/7677/2195/4616/6070 vectors) must be 'accepted' exactly when credentials are equal; distinct by case tuple")
 			r.Assume("admissible credentials per mechanism: PLAIN non-empty without NUL; XOAUTH2 without ^A; SCRAM non-empty without control characters (SASLprep/PRECIS prohibit them); Unicode restricted to strings on which SASLprep and PRECIS OpaqueString agree",
 				"an empty server nonce suffix is not exercised (the property is silent)")
 			alpha := []string{"a", "B", "=", ",", " ", "é", "日", "\x01", "%"}
@@ -440,6 +441,11 @@ func init() {
 				}
 				for _, sn := range []string{"x", "=", "==a=", "abcdefghijklmnopqrstuvwx", "!#$%&'()*+-./:;<>?@[]^_"} {
 					cases = append(cases, c14Case{Mech: mech, User: "user", Pass: "pencil", SUser: "user", SPass: "pencil", SNonce: sn})
+				}
+				// optional extensions after the iteration count (RFC 5802 5.1: unknown optional attributes are ignored)
+				for _, ext := range []string{",x=opaque", ",y=1,z=2", ",a=b=c", ",x="} {
+					cases = append(cases, c14Case{Mech: mech, User: "user", Pass: "pencil", SUser: "user", SPass: "pencil", Ext: ext},
+						c14Case{Mech: mech, User: "user", Pass: "pencil", SUser: "user", SPass: "other", Ext: ext})
 				}
 				cases = append(cases, c14Case{Mech: mech, User: "user", Pass: "pencil", SUser: "user", SPass: "pencil", Twice: true})
 				cases = append(cases, c14Case{Mech: mech, User: "us,er", Pass: "pen=cil", SUser: "us,er", SPass: "pen=cil", Twice: true})
